@@ -130,7 +130,10 @@ def pattern_zoo():
              r"[\n]", "[^\n]", "é", "[^é]", "[ -~]", r"[a\-c]", r"\\", "[]a]", "[^]a]", "_", " "]
     unsup = [r"\s", r"\S", r"\D", r"\W", "(?=a)", "(?!a)", "(?<=a)", r"(a)\1", "(?>a)", "a*+", "a++", r"[\s]", r"[^\S]", r"[\D]",
              r"[\W]", "(?P<n>a)(?P=n)"]
-    quants = ["", "*", "+", "?", "{2}", "{2,}", "{1,3}", "{0}", "*?", "+?", "??", "{2,3}?", "{40,}", "{33,}?"]
+    # (upper bounds 42..46: the numeric values of the sre opcodes MIN_REPEAT / MAX_REPEAT in CPython 3.8 - 3.13, which the
+    # generator's open-ended test must not mistake for "no upper bound")
+    quants = ["", "*", "+", "?", "{2}", "{2,}", "{1,3}", "{0}", "*?", "+?", "??", "{2,3}?", "{40,}", "{33,}?",
+              "{40,42}", "{40,43}", "{40,44}", "{44}", "{,44}", "{41,44}?", "{40,45}", "{40,46}"]
     seen = set()
 
     def emit(p):
@@ -255,6 +258,35 @@ def search(spec):
                            "path": {"k": "nil"}}, meta)
                 if hit:
                     return hit, n
+    if oracle == "C06":
+        # every declarable combination of refinements, in several orders -- including orders the DSL refuses today (those
+        # are skipped: `DSL refuses the expression`); a declaration method that starts accepting one of them yields a
+        # schema whose printed form may not be re-declarable
+        import itertools as it
+        zoo = ["schema.none", "schema.bool(True)", "schema.int(3).min(1).max(5)", "schema.int.max(5).min(1)", "schema.float(1.5).precision(1)",
+               "schema.float.precision(2)(1.25)", "schema.float.min(0.5).max(2.5).precision(3)", "schema.bytes(b'x')", "schema.str('ab')",
+               "schema.list([])", "schema.list([]).len(0)", "schema.list([...])", "schema.list([...]).len(..., 3)", "schema.list([...]).len(1, 3)",
+               "schema.list([schema.int, ...]).len(1, 3)", "schema.list([..., schema.int]).len(2)", "schema.list([..., schema.int, ...]).len(1, ...)",
+               "schema.list(schema.int).len(..., 4)", "schema.list(schema.list([schema.int, schema.str]).len(2))", "schema.dict({})",
+               "schema.dict({...: ...})", "schema.any(schema.int, schema.any(schema.str, schema.none))", "schema.int | schema.str | schema.none",
+               "schema.list([schema.int | schema.none, ...])"]
+        refs = [".len(2)", ".len(1, ...)", ".len(..., 5)", ".len(1, 5)", ".alphabet('ab')", ".contains('a')", ".regex('a+')", ".regex('^ab$')"]
+        for base in ("schema.str", "schema.str('ab')"):
+            for k in (1, 2, 3):
+                for combo in it.permutations(refs, k):
+                    zoo.append(base + "".join(combo))
+        for e in zoo:
+            if n >= MAX_CASES:
+                return None, n
+            hit = run({"schema": {"k": "expr", "src": e}}, meta)
+            if hit:
+                return hit, n
+        from replay.complement import repr_cases
+        for e in repr_cases():
+            hit = run({"schema": {"k": "expr", "src": e}}, meta)
+            if hit:
+                return hit, n
+        return None, n
     if oracle == "C01":
         zoo = N.C17_ZOO + [
             "schema.str('AB-12').regex('[A-Z]{2}-[0-9]{2}')", "schema.str('x').len(1)", "schema.str('abc').alphabet('abc').contains('b')",
@@ -264,6 +296,7 @@ def search(spec):
             "schema.str.len(40)", "schema.str.regex('a{40,}')", "schema.str.regex('[^a-y]')", "schema.int.min(5).max(5)",
             "schema.float.min(0.5).max(0.5)", "schema.dict({'a': schema.int, optional('b'): schema.str})", "schema.dict",
             "schema.dict({'a': schema.int, ...: ...})", "schema.any", "schema.any(schema.none)", "schema.bool(True)", "schema.none",
+            "schema.str.regex('^id-.$')", "schema.str.regex('x.y')", "schema.str.regex('[a-c].[0-9]')", "schema.str.regex('a|.b')",
             "schema.list(schema.int).len(3)", "schema.list.len(2)", "schema.bytes(b'x')", "schema.list(schema.list(schema.int).len(1)).len(2)",
         ]
         for e in zoo:
@@ -385,6 +418,40 @@ def search(spec):
                     bad = f"{ea} == {eb} although they give different verdicts"
                 if bad:
                     inputs = {"A": {"k": "expr", "src": ea}, "B": {"k": "expr", "src": eb}, "C": {"k": "expr", "src": eb}}
+                    return (inputs, {"law": None}, bad), n
+            except Exception:
+                continue
+        # transitivity over triples of dict / list schemas declared from different kinds of mapping / key orders / value
+        # kinds (the stored key table must compare like a plain dict whatever it was declared from)
+        exprs3 = ["schema.dict({'id': schema.int, 'name': schema.str})", "schema.dict({'name': schema.str, 'id': schema.int})",
+                  "schema.dict(OrderedDict([('id', schema.int), ('name', schema.str)]))",
+                  "schema.dict(OrderedDict([('name', schema.str), ('id', schema.int)]))",
+                  "schema.dict(defaultdict(list, {'id': schema.int, 'name': schema.str}))",
+                  "schema.dict({'id': schema.int, optional('name'): schema.str})",
+                  "schema.dict(OrderedDict([(optional('name'), schema.str), ('id', schema.int)]))",
+                  "schema.dict({'id': schema.int, 'name': schema.str, ...: ...})",
+                  "schema.dict(OrderedDict([(..., ...), ('id', schema.int), ('name', schema.str)]))",
+                  "schema.list([schema.int(1), schema.int(True)])", "schema.list([schema.int(True), schema.int(1)])",
+                  "schema.list([schema.int(1), schema.int(1)])", "schema.int(1)", "schema.int(True)", "schema.float(1.0)"]
+        built3 = []
+        for e in exprs3:
+            try:
+                built3.append((e, N.build({"k": "expr", "src": e})))
+            except N.Unreachable:
+                pass
+        probe3 = [{"id": 1, "name": "n"}, {"name": "n", "id": 1}, {"id": 1}, {"id": 1, "name": "n", "x": 0}, [1, 1], [True, 1], 1, True, 1.0]
+        for (ea, A), (eb, B), (ec, C) in it.product(built3, repeat=3):
+            n += 1
+            try:
+                bad = None
+                if A == B and B == C and not (A == C):
+                    bad = f"not transitive: {ea} == {eb} and {eb} == {ec}, but {ea} != {ec}"
+                elif (A == B) != (B == A):
+                    bad = f"{ea} == {eb} is {A == B} but the other way round is {B == A}"
+                elif A == B and any(N.validate(A, v).has_errors() != N.validate(B, v).has_errors() for v in probe3):
+                    bad = f"{ea} == {eb} although they give different verdicts"
+                if bad:
+                    inputs = {"A": {"k": "expr", "src": ea}, "B": {"k": "expr", "src": eb}, "C": {"k": "expr", "src": ec}}
                     return (inputs, {"law": None}, bad), n
             except Exception:
                 continue
